@@ -346,3 +346,38 @@ Definition put_before (s : ostate) : text :=
   | Some (false, r) => firstn (o_cur s) (o_text s) ++ r ++ skipn (o_cur s) (o_text s)
   | _ => o_text s
   end.
+
+(** ** p and P: putting the register back (characterwise text goes behind / before the cursor, whole lines go below / above
+    the cursor's line); a count puts that many copies *)
+Fixpoint repeat_text (n : nat) (r : text) : text :=
+  match n with O => [] | S k => r ++ repeat_text k r end.
+Fixpoint has_nl (r : text) : bool :=
+  match r with [] => false | c :: r' => (c =? nl) || has_nl r' end.
+
+Definition put (after : bool) (count : nat) (s : ostate) : ostate :=
+  let t := o_text s in
+  let i := Nat.min (o_cur s) (length t) in
+  let count := Nat.max count 1 in
+  match o_reg s with
+  | None => s
+  | Some (false, r) =>
+    if Nat.eqb (length r) 0 then s else
+    let ins := repeat_text count r in
+    (* behind the cursor - but an empty line has nothing to go behind *)
+    let at_ := if after && negb (Nat.eqb i (line_end t i)) then S i else i in
+    let t' := firstn at_ t ++ ins ++ skipn at_ t in
+    (* the cursor ends on the last character that was put; on its first one when the text spans lines *)
+    mkO t' (if has_nl ins then settle_line t' at_ else (at_ + length ins - 1)%nat) (o_reg s)
+  | Some (true, r) =>
+    (* [r] holds whole lines, each with its line break *)
+    let ins := repeat_text count r in
+    let body := firstn (length ins - 1) ins in          (* without the last line break: lines are separated, not terminated *)
+    if after then
+      let e := line_end t i in
+      let t' := firstn e t ++ [nl] ++ body ++ skipn e t in
+      mkO t' (first_nb_of_line t' (S e)) (o_reg s)
+    else
+      let b := line_start_from t i in
+      let t' := firstn b t ++ body ++ [nl] ++ skipn b t in
+      mkO t' (first_nb_of_line t' b) (o_reg s)
+  end.
